@@ -22,7 +22,7 @@ LitVal(l) ==
     [] l = "f05" -> MkDy(1, -1) [] l = "f2" -> MkDy(1, 1) [] l = "f15" -> MkDy(3, -1)
     [] l = "f0" -> MkDy(0, 0) [] l = "f1" -> MkDy(1, 0) [] l = "f5" -> MkDy(5, 0)
     [] l = "unit" -> U [] l = "tru" -> TT [] l = "fls" -> FF
-    [] l = "syma" -> MkSym("a") [] l = "symb" -> MkSym("b")
+    [] l = "syma" -> MkSym("a") [] l = "symb" -> MkSym("b") [] l = "symc" -> MkSym("c")
     [] l = "strs" -> [t |-> "str", v |-> <<115>>] [] l = "stre" -> [t |-> "str", v |-> <<>>] [] l = "strab" -> [t |-> "str", v |-> <<97, 98>>]
 IdName(l) == CASE l = "ida" -> "a" [] l = "idb" -> "b" [] l = "idc" -> "c"
 IsId(t) == t.l \in {"ida", "idb", "idc"}
